@@ -60,6 +60,7 @@ type c05Ack struct {
 	Limbo     bool // a primary request is in flight
 	V4, V6    netip.Addr
 	Container string
+	Prev      string // the sandbox id of the acknowledged ADD before the latest one, when it differs
 }
 
 type c05Image struct {
@@ -199,6 +200,11 @@ func c05History(c *ctxT, hid int, seed int64, perHist int) {
 						p.gen++
 						p.stopped = false
 						cid = fmt.Sprintf("c%d", p.gen)
+					} else if a.Held && cr.Intn(3) == 0 {
+						// the sandbox was re-created without a DEL of the old one (kubelet / runtime restart): the
+						// ADD of the new sandbox is acknowledged, the DEL of the old one arrives late or after a restart
+						p.gen++
+						cid = fmt.Sprintf("c%d", p.gen)
 					}
 					amu.Lock()
 					x := acks[pod]
@@ -213,6 +219,9 @@ func c05History(c *ctxT, hid int, seed int64, perHist int) {
 					x = acks[pod]
 					x.Limbo = false
 					if res.Err == nil {
+						if x.Held && x.Container != cid {
+							x.Prev = x.Container
+						}
 						x.Held, x.V4, x.V6, x.Container = true, res.V4, res.V6, cid
 					}
 					acks[pod] = x
@@ -369,6 +378,28 @@ func c05Restart(c *ctxT, d *dHist, hid int, seed int64, idx int, img *c05Image) 
 				}
 			}
 			rctx, rcancel := context.WithTimeout(context.Background(), 10*time.Second)
+			if a.Prev != "" && a.Prev != a.Container {
+				// the late DEL of the sandbox that the acknowledged ADD replaced: the record must name the new one
+				_, _ = svc.ReleaseIP(rctx, &rpc.ReleaseIPRequest{K8SPodName: name, K8SPodNamespace: "ns", K8SPodInfraContainerId: a.Prev})
+				r.Count("late_del_of_replaced_sandbox_after_restart", 1)
+				st := mgr.Status()
+				for _, ip := range []string{want4, want6} {
+					if ip == "" {
+						continue
+					}
+					still := false
+					for _, e := range st {
+						for _, u := range e.Usage {
+							if len(u) > 1 && u[0] == ip && u[1] == pod {
+								still = true
+							}
+						}
+					}
+					if !still {
+						r.Violate("C05.acked-add-not-durable", img.Point+"/replaced-sandbox", fmt.Sprintf("history %d image %d: the ADD of sandbox %s of %s was acknowledged; after restart the DEL of the replaced sandbox %s released %s", hid, idx, a.Container, pod, a.Prev, ip), rep(""))
+					}
+				}
+			}
 			reply, err := svc.AllocIP(rctx, &rpc.AllocIPRequest{K8SPodName: name, K8SPodNamespace: "ns", K8SPodInfraContainerId: a.Container, Netns: "/proc/1/ns/net", IfName: "eth0"})
 			rcancel()
 			if err != nil {
